@@ -345,8 +345,8 @@ FLOW_TB = ["Float execution of the model (Lean runtime + libm) assumed IEEE bina
            "order laws of finite binary64 (strict weak order, x < nextUp x) assumed; proved for no concrete float type",
            "topology handed to the flow model is the real grid's neighbour lists (tied to the grid model in C07/C18)"]
 
-register("C01", lean_modules=["FsProofs.Properties.ClosedC01Pipeline", "FsProofs.Properties.ShapesC01", 'FsModel.PFlood', 'FsModel.Descent', 'FsModel.Tilt', 'FsProofs.Properties.C01', 'FsProofs.Properties.C01Multi', 'FsProofs.Properties.C01MstRouter', 'FsProofs.Properties.C01MstConnected', 'FsProofs.Properties.C01MstExample', 'FsProofs.Properties.ImplCheck', 'FsProofs.Properties.Closed'],
-         theorems=["Fs.Closed.grid_C01_mst_multi", "Fs.Closed.C01_mst_multiRouter", "Fs.Closed.raster_C01_mst_multi", "Fs.Closed.mesh_C01_mst_multi", "Fs.Closed.profile_C01_mst_multi", "Fs.Closed.basic_multi_pit", "Fs.Closed.basic_multi_rows", "Fs.Shapes.source_shape_C01", 'Fs.C01.C01_pflood_singleRouter', 'Fs.C01.C01_pflood_multiRouter', 'Fs.ImplCheck.checkFlow_sound', 'Fs.ImplCheck.checkFlow_paths', 'Fs.Closed.raster_C01_pflood_single', 'Fs.Closed.raster_C01_pflood_multi', 'Fs.Closed.raster_C01_mst', 'Fs.C01Mst.resolve_c01_singleRouter', 'Fs.C01Mst.resolve_c01_kruskal_sorted', 'Fs.C01Mst.resolve_c01_tree', 'Fs.C01Mst.resolve_c01_connected',
+register("C01", lean_modules=["FsProofs.Properties.ClosedPfloodPipeline", "FsProofs.Properties.ClosedC01Pipeline", "FsProofs.Properties.ShapesC01", 'FsModel.PFlood', 'FsModel.Descent', 'FsModel.Tilt', 'FsProofs.Properties.C01', 'FsProofs.Properties.C01Multi', 'FsProofs.Properties.C01MstRouter', 'FsProofs.Properties.C01MstConnected', 'FsProofs.Properties.C01MstExample', 'FsProofs.Properties.ImplCheck', 'FsProofs.Properties.Closed'],
+         theorems=["Fs.Closed.grid_pipeline_pflood_single", "Fs.Closed.raster_pipeline_pflood_single", "Fs.Closed.mesh_pipeline_pflood_single", "Fs.Closed.profile_pipeline_pflood_single", "Fs.Closed.grid_reach_iff_connBase", "Fs.Closed.grid_C01_mst_multi", "Fs.Closed.C01_mst_multiRouter", "Fs.Closed.raster_C01_mst_multi", "Fs.Closed.mesh_C01_mst_multi", "Fs.Closed.profile_C01_mst_multi", "Fs.Closed.basic_multi_pit", "Fs.Closed.basic_multi_rows", "Fs.Shapes.source_shape_C01", 'Fs.C01.C01_pflood_singleRouter', 'Fs.C01.C01_pflood_multiRouter', 'Fs.ImplCheck.checkFlow_sound', 'Fs.ImplCheck.checkFlow_paths', 'Fs.Closed.raster_C01_pflood_single', 'Fs.Closed.raster_C01_pflood_multi', 'Fs.Closed.raster_C01_mst', 'Fs.C01Mst.resolve_c01_singleRouter', 'Fs.C01Mst.resolve_c01_kruskal_sorted', 'Fs.C01Mst.resolve_c01_tree', 'Fs.C01Mst.resolve_c01_connected',
                    'Fs.C01Mst.routeCarve_spec', 'Fs.C01Mst.routeBasic_spec', 'Fs.C01Mst.rerouted_forest', 'Fs.C01Mst.rerouted_base', 'Fs.C01Mst.orient_spec', 'Fs.C01Mst.orient_reached_iff', 'Fs.C01Mst.kruskal_keeps_virtual', 'Fs.C01.pflood_terminates', 'Fs.pflood_parent', 'Fs.pflood_complete', 'Fs.step_wf', 'Fs.Tilt.tilt_descends'], gen=gen_resolved, oracles=[oracle.c01], cause=oracle.c01_cause,
          model_certs={"cert_mst": ("1", "spanning_tree_certificate", "the Lean checker certOk (Fs.C15.certOk_sound) rejects the raw spanning tree used by this resolver run as a minimum-weight spanning forest that keeps the virtual root edges (the tree facts assumed by Fs.C01Mst.resolve_c01_tree)"),
                       "cert_c01": ("1", "reaches_base", "the Lean checker checkFlow (soundness: Fs.ImplCheck.checkFlow_sound / checkFlow_paths) rejects the receivers and elevation REPORTED BY THE IMPLEMENTATION: a terminal node drains, a step is not strictly descending to an unmasked (neighbour) node, or a node connected to a base level is a pit")},
@@ -379,7 +379,7 @@ register("C06", lean_modules=["FsProofs.Properties.ClosedC06", "FsProofs.Propert
          model_certs={"cert_c06": ("1", "tables_certificate", "the Lean checker checkC06 (soundness: Fs.ImplCheck.checkC06_sound) rejects the donors / bottom-up order / breadth-first levels REPORTED BY THE IMPLEMENTATION")},
          nontrivial=has_pits_or_multi, tags=tags_flow,
          rule="all operator families incl. spanning-tree re-routing, masks, repeated updates on one object; snapshots' tables checked too", trusted_base=FLOW_TB)
-register("C19", lean_modules=["FsProofs.Properties.ClosedC19Resolve", "FsProofs.Properties.ShapesC19", "FsProofs.Properties.ClosedMore", 'FsModel.Basins', 'FsProofs.Properties.C19', 'FsProofs.Properties.ImplCheck'], theorems=["Fs.Closed.grid_C19_resolve", "Fs.Closed.grid_resolve_mask_closed", "Fs.Closed.raster_C19_resolve", "Fs.Closed.mesh_C19_resolve", "Fs.Closed.profile_C19_resolve", "Fs.Shapes.source_shape_C19", "Fs.Closed.raster_C19_basins", "Fs.Closed.mesh_C19_basins", "Fs.Closed.profile_C19_basins", 'Fs.C19.basins_spec', 'Fs.ImplCheck.checkBasins_sound', 'Fs.ImplCheck.checkBasins_drain', 'Fs.C19.run_blocks', 'Fs.Basins.run_block', 'Fs.Basins.block_labels_agree'], gen=lambda r, t: gen_any_ops(r, t, basins=True), oracles=[oracle.c19], sections={"basins", "outlets", "pits"},
+register("C19", lean_modules=["FsProofs.Properties.ClosedPfloodPipeline", "FsProofs.Properties.ClosedC19Resolve", "FsProofs.Properties.ShapesC19", "FsProofs.Properties.ClosedMore", 'FsModel.Basins', 'FsProofs.Properties.C19', 'FsProofs.Properties.ImplCheck'], theorems=["Fs.Closed.grid_C19_pflood", "Fs.Closed.raster_C19_pflood", "Fs.Closed.mesh_C19_pflood", "Fs.Closed.profile_C19_pflood", "Fs.Closed.grid_C19_resolve", "Fs.Closed.grid_resolve_mask_closed", "Fs.Closed.raster_C19_resolve", "Fs.Closed.mesh_C19_resolve", "Fs.Closed.profile_C19_resolve", "Fs.Shapes.source_shape_C19", "Fs.Closed.raster_C19_basins", "Fs.Closed.mesh_C19_basins", "Fs.Closed.profile_C19_basins", 'Fs.C19.basins_spec', 'Fs.ImplCheck.checkBasins_sound', 'Fs.ImplCheck.checkBasins_drain', 'Fs.C19.run_blocks', 'Fs.Basins.run_block', 'Fs.Basins.block_labels_agree'], gen=lambda r, t: gen_any_ops(r, t, basins=True), oracles=[oracle.c19], sections={"basins", "outlets", "pits"},
          model_certs={"cert_c19": ("1", "basins_certificate", "the Lean checker checkBasins (soundness: Fs.ImplCheck.checkBasins_sound) rejects the labels / outlets / pits REPORTED BY THE IMPLEMENTATION")},
          nontrivial=has_pits_or_multi, tags=tags_flow,
          rule="basins/outlets/pits after every single-direction sequence, masks, carve/basic re-routing, repeated calls", trusted_base=FLOW_TB)
@@ -703,7 +703,7 @@ def _lvl(pid, level, text, technique=None, note=None):
         P["level_note"] = note
 
 
-_lvl("C01", "proof THREE-OPERATOR PIPELINE single router -> spanning-tree resolver -> MULTIPLE-direction router (ClosedC01Pipeline.lean): grid_C01_mst_multi (carve, Kruskal, any grid with EnvOk; raster_/mesh_/profile_ instances, non-vacuity examples): the multi router run on the returned elevations leaves no unmasked node connected to a base level as a pit, all its receivers are strictly lower unmasked neighbours, the resolver's own receiver is among them, no flow path has a cycle, and EVERY maximal flow path from such a node ends at an unmasked base level. For basic the statement is FALSE and the negation is proved on a concrete instance (basic_multi_pit, decide +kernel on the executed model: the pit is drained to a non-neighbour pass node, so the neighbour-based router that runs next leaves it its own receiver) - this is the formal counterpart of the known finding D11 (basic_then_multi), which the check replays on the implementation.",
+_lvl("C01", "proof THREE-OPERATOR PIPELINE single router -> spanning-tree resolver -> MULTIPLE-direction router (ClosedC01Pipeline.lean): grid_C01_mst_multi (carve, Kruskal, any grid with EnvOk; raster_/mesh_/profile_ instances, non-vacuity examples): the multi router run on the returned elevations leaves no unmasked node connected to a base level as a pit, all its receivers are strictly lower unmasked neighbours, the resolver's own receiver is among them, no flow path has a cycle, and EVERY maximal flow path from such a node ends at an unmasked base level. For basic the statement is FALSE and the negation is proved on a concrete instance (basic_multi_pit, decide +kernel on the executed model: the pit is drained to a non-neighbour pass node, so the neighbour-based router that runs next leaves it its own receiver) - this is the formal counterpart of the known finding D11 (basic_then_multi), which the check replays on the implementation. PIPELINE pflood -> single router (ClosedPfloodPipeline.lean): grid_pipeline_pflood_single states C01, C06, C03 conservation and C10 for the whole operator sequence with the hypotheses stated once; grid_reach_iff_connBase identifies the flood's reachability with 'connected through unmasked neighbours to an unmasked base level'.",
      "END-TO-END theorem on the executed composition priority flood + single-direction router (Fs.C01.C01_pflood_singleRouter, any grid size / topology handed over by the grid, any elevations, masks and base-level sets, sequential or multi-threaded router variant; assumptions: strict-weak-order laws of the comparison, x < nextUp x, slope towards a lower neighbour above -DBL_MAX, neighbour lists in range and symmetric, base-level list duplicate-free): (1) base-level and masked nodes are their own receiver, (2) every proper step goes to an unmasked neighbour with strictly lower RETURNED elevation, (3) every node connected through unmasked neighbours to an unmasked base level reaches a base-level node after finitely many receiver steps and stops there, (4) no cycle. It rests on pflood_terminates (potential-function proof that the flood empties both queues within its fuel n+1), pflood_parent / pflood_complete (flood invariants), C04.routed_row (router scan) and C06.singleRouter_graph. Also step_wf (descent => well-founded) and tilt_descends (strict descent after the spanning-tree tilt pass). C01_pflood_multiRouter: the same for flood + multiple-direction router (every proper receiver is an unmasked neighbour with strictly lower returned elevation; a node connected to a base level is never a pit and all its receivers stay connected; 'flows to' is well-founded, no cycle, every path has fewer than n steps; every maximal path from a connected node ends at a base level, and one exists). resolve_c01_singleRouter: the same for the executed SPANNING-TREE resolver (Fs.Mst.resolve with Kruskal, carve or basic) after the single router: base-level and masked nodes stay their own receiver; the re-routed receiver table is again a forest (so the rebuilt donors/orders are valid by C06); every proper step strictly decreases the RETURNED (tilted) elevation; carve never hangs; every unmasked node whose basin is reached from the root - in particular every node connected through unmasked neighbours to an unmasked base level (resolve_c01_connected) - ends at a base-level node. Built from routeCarve_spec (path reversal), routeBasic_spec, the fold over tree edges (rerouted_forest / rerouted_base), orient_spec + orient_reached_iff (the executed orientation returns an arborescence from the root: each reached basin is the head of exactly one edge, depths increase, reached = connected to the root in the tree), kruskal_keeps_virtual, connect_basins (C15) and tilt_descends; extra assumptions: elevations above -DBL_MAX (a real pass at -DBL_MAX would tie with the virtual edges - counterexample in C01MstExample), arrays fit in memory, the weight-sorted permutation check the harness performs. For Boruvka the same conclusions hold under the two tree facts (forest, virtual edges kept) that the model driver CERTIFIES on every resolver run of either method (line cert_mst: certOk on the raw tree + all virtual edges present): resolve_c01_tree. Certificate: on every scenario the model driver runs the Lean checker checkFlow on the receivers and elevation REPORTED BY THE C++ (soundness checkFlow_sound / checkFlow_paths: accepted => terminal nodes self, strict descent to unmasked (neighbour) nodes, no pit among nodes connected to a base level, hence every maximal path ends at a base level). raster_C01_pflood_single / _multi / raster_C01_mst: Closed corollaries (Closed.lean): the topology hypotheses (neighbours in range, row width <= n_neighbors_max, symmetry with multiplicity, positive distances, slope-above-lowest on neighbour slots) are DISCHARGED for the topology `rasterTopo` the executed raster model reports, for every raster with >= 2 nodes per axis and positive spacing over any ordered field - so the statements below hold for every such raster, mask, base-level set and elevation with no hypothesis about the grid left; all their hypotheses are shown satisfiable on a concrete 3x3 instance over Q (non-vacuity).",
      "Lean 4 end-to-end theorems on the executed flood+router and spanning-tree resolver (loop invariants, potential-function termination, path-reversal / forest / arborescence proofs, composition) + bit-exact differential correspondence + reachability oracle")
 _lvl("C02", "proof",
@@ -733,7 +733,7 @@ _lvl("C09", "proof",
 _lvl("C17", "proof",
      "Theorems on the executed grid model (constants regenerated from the source): prio_order (fixed value > fixed gradient > looped > core, decide over the regenerated precedences), paint_spec (for every raster with >= 2 nodes per axis: core strictly inside, the border's status on each non-corner border node, at each corner the one of the two meeting statuses with the larger precedence), rasterStatus_ok_iff / _error_iff / _error_kind / rasterStatus_ok / rasterStatus_ok_distinct (construction succeeds iff looped borders are symmetric and no override is out of range, looped, or on a looped node; which error kind the first offending entry yields; otherwise the array is the painted array with the overrides applied and looped appears exactly on the looped borders), the same for the profile grid (profileStatus_*), sortKeys_perm / sorted (std::map order), iterFwd_eq / iterRev_eq (iteration filtered by any predicate yields exactly (range size).filter p, resp. its reverse, for every size and predicate; built on skipFwd_stop). Triangular mesh (C17Mesh.lean, on the executed Fs.MeshGrid.statusMap / statusArr): meshStatusMap_ok_iff (accepted iff no entry is looped or out of range), meshStatusMap_error_kind (the first offending entry decides; looped is tested before the range), meshStatusMap_ok / _ok_distinct (empty map: boundary nodes fixed value, others core; otherwise every node core except the given entries, last entry wins; a mesh never has a looped node), meshStatusArr_spec (array accepted iff its length is the number of nodes, then copied). Default base levels = fixed-value nodes is a definition of the driver. Compared exhaustively over all 4^4 / 4^2 border mixes on small shapes, plus malformed override maps with error kinds, iteration in both directions for every filter.",
      "Lean 4 proofs on the executed status/iteration model (omega, decide over regenerated constants, list induction) + exhaustive border-mix correspondence")
-_lvl("C19", "proof AFTER THE SINK RESOLVER (ClosedC19Resolve.lean): grid_resolve_mask_closed (fold invariant over routeBasic / carveLoop: an unmasked node's rewritten receiver is unmasked) and grid_C19_resolve - all clauses of basins_spec for the graph the spanning-tree resolver returns (Kruskal, carve and basic), plus the pay-off of the resolver: (8) no remaining pit is connected through unmasked neighbours to an unmasked base level, (9) if every unmasked node is so connected there is no pit at all; raster_/mesh_/profile_ instances, computed examples (pits [8] before, [] after, both methods; a masked-off region keeps its pit).",
+_lvl("C19", "proof AFTER THE SINK RESOLVER (ClosedC19Resolve.lean): grid_resolve_mask_closed (fold invariant over routeBasic / carveLoop: an unmasked node's rewritten receiver is unmasked) and grid_C19_resolve - all clauses of basins_spec for the graph the spanning-tree resolver returns (Kruskal, carve and basic), plus the pay-off of the resolver: (8) no remaining pit is connected through unmasked neighbours to an unmasked base level, (9) if every unmasked node is so connected there is no pit at all; raster_/mesh_/profile_ instances, computed examples (pits [8] before, [] after, both methods; a masked-off region keeps its pit). AFTER THE PRIORITY FLOOD (ClosedPfloodPipeline.lean): grid_C19_pflood - all clauses for the single router's graph on the filled elevation, no remaining pit is reached by the flood / connected to a base level, none at all if every unmasked node is reached, and every reached node carries the label of a base-level outlet; computed examples (pits [8] -> [] on the raster instance, a masked-off region keeps its pit).",
      "END-TO-END theorem on the executed Fs.Flow.basins over any single-direction graph assembled from a receiver forest (C06.SingleGraph: router output or spanning-tree resolver output) whose unmasked nodes never drain into masked ones (basins_spec): masked nodes get the reserved label; every unmasked node has the label of its receiver; the outlets are exactly the unmasked self-receivers, without duplicates, numbered consecutively from zero in bottom-up order; every unmasked node's label is the index of the outlet it drains to (two unmasked nodes share a label iff they drain to the same outlet; number of distinct labels = number of unmasked outlets); pits = outlets that are not base levels. Built on run_block / block_labels_agree and the block structure of the bottom-up order (dfs_blocks). Certificate: the model driver runs checkBasins on the labels / outlets / pits REPORTED BY THE C++ against the tables it reported at the last update (soundness checkBasins_sound, checkBasins_outlets, checkBasins_drain).",
      "Lean 4 fold proofs of the labelling sweep composed with the block structure of the bottom-up order + bit-exact correspondence + partition oracle")
 
